@@ -46,6 +46,29 @@ import "github.com/biogo/biogo/alphabet"
 //@   loop 1 invariant forall k int :: idx <= k && k < len(m.Seq) ==> rowStart(m.Seq[k]) == old(rowStart(m.Seq[k]))
 //@   loop 1 assigns rowStart(*), rowLetters(*)
 
+// Reverse mirrors the rows about the span exactly as RevComp does (so that the columns are reversed and a second
+// Reverse restores them).
+//@ func (*Multi).Reverse
+//@   property C05
+//@   inline
+//@   loop 1 invariant 0 <= idx && idx <= len(m.Seq) && rows(m) && m.Seq == old(m.Seq)
+//@   loop 1 invariant forall k int :: 0 <= k && k < len(m.Seq) ==> rowLen(m.Seq[k]) == old(rowLen(m.Seq[k]))
+//@   loop 1 invariant forall k int :: 0 <= k && k < idx ==> rowStart(m.Seq[k]) == start + end - old(rowStart(m.Seq[k]) + rowLen(m.Seq[k]))
+//@   loop 1 invariant forall k int :: idx <= k && k < len(m.Seq) ==> rowStart(m.Seq[k]) == old(rowStart(m.Seq[k]))
+//@   loop 1 assigns rowStart(*), rowLetters(*)
+
+//@ func verifLemmaReverseMirrors
+//@   property C05
+//@   lemma
+//@   requires rows(m)
+//@   ensures [mirrored] forall k int :: 0 <= k && k < len(m.Seq) ==> rowStart(m.Seq[k]) == s + e - old(rowStart(m.Seq[k]) + rowLen(m.Seq[k]))
+//@   ensures [lengths]  forall k int :: 0 <= k && k < len(m.Seq) ==> rowLen(m.Seq[k]) == old(rowLen(m.Seq[k]))
+func verifLemmaReverseMirrors(m *Multi) (s, e int) {
+	s, e = m.Start(), m.End()
+	m.Reverse()
+	return
+}
+
 //@ func verifLemmaRevCompMirrors
 //@   property C05
 //@   lemma
